@@ -772,6 +772,17 @@ func (fr *Frame) binop(x *ssa.BinOp) *Term {
 			if x.Op == token.QUO {
 				return BV("bvsdiv", at, bt)
 			}
+			if c.contract != nil && c.contract.Flags["absmod"] != "" && !isConstTerm(bt) {
+				// flag absmod: a signed remainder by a symbolic divisor is abstracted to an uninterpreted function that
+				// keeps only the facts index wrap-around needs (an over-approximation: anything proved still holds)
+				r := UFApp("absmod", at.S, at, bt)
+				zero := BVLit(0, w)
+				nonneg := And(BVCmp("bvsle", zero, at), BVCmp("bvslt", zero, bt))
+				c.assume(Implies(nonneg, And(BVCmp("bvsle", zero, r), BVCmp("bvslt", r, bt))))
+				c.assume(Implies(And(nonneg, BVCmp("bvslt", at, bt)), Eq(r, at)))
+				c.assume(Implies(And(nonneg, Eq(at, bt)), Eq(r, zero)))
+				return r
+			}
 			return BV("bvsrem", at, bt)
 		}
 		if x.Op == token.QUO {
@@ -1036,3 +1047,5 @@ func (fr *Frame) convert(x *ssa.Convert) *Term {
 }
 
 var _ = strings.TrimSpace
+
+func isConstTerm(t *Term) bool { return t != nil && len(t.Args) == 0 && strings.HasPrefix(t.Op, "#") }
